@@ -105,7 +105,7 @@ def main(tier, seed):
                               prefilter=lambda t: "stack = <<>>" in t and "defects = 1" in t):
         progs.append(st)
     ck.add_tlc("FortranScopes_GenDefect", info["result"])
-    for cfg, flt in (("FortranScopes_GenTypes.cfg", '"typedvar"'), ("FortranScopes_GenProcs.cfg", '"procptr"')):
+    for cfg, flt in (("FortranScopes_GenTypes.cfg", '"typedvar"'), ("FortranScopes_GenProcs.cfg", '"procptr"'), ("FortranScopes_GenSubmod.cfg", '"submodule"')):
         info = {}
         k = 0
         for st in tlc.dump_states("FortranScopes", cfg, info=info, timeout=3000,
